@@ -36,6 +36,10 @@ MORE_KINDS = ['augassign', 'for', 'while', 'with', 'try', 'decodef', 'class', 'l
 ALL_KINDS = KINDS + MORE_KINDS
 
 
+DISABLE_LIKE = ['failing inputs are rejected before statement', 'script-style usage of statement', 'unstable on purpose: statement',
+                'disable nothing at statement', 'SLOW_DOCTEST is not meant by statement', 'DISABLE_DOCTEST only counts on line one, not at']
+
+
 class Stmt:
     def __init__(self, kind, k):
         self.kind = kind
@@ -106,7 +110,12 @@ class Stmt:
         elif kind == 'semicolon':
             self.lines = ['p%d = t(%d); q%d = p%d + 1' % (k, k, k, k)]
         elif kind == 'comment':
-            self.lines = ['# a comment before statement %d' % k, 'cc%d = t(%d)' % (k, k)]
+            # a comment line; when it is not the first statement of the program (k > 10) its text may begin with one of
+            # the legacy force-disable words, which only count on the FIRST line of a doctest
+            text = 'a comment before statement %d' % k
+            if k > 10 and k % 2 == 0:
+                text = DISABLE_LIKE[k % len(DISABLE_LIKE)] + ' %d' % k
+            self.lines = ['# ' + text, 'cc%d = t(%d)' % (k, k)]
             self.starts = [0, 1]
         elif kind == 'async_await':
             self.lines = ['async def co%d():' % k, '    return t(%d)' % k, 'aw%d = await co%d()' % (k, k)]
